@@ -803,6 +803,9 @@ func (f *frame) loopHeader(li *loopInfo, st *State, phiVals map[*ssa.Phi]Val) {
 	}
 	if f.top && f.con != nil {
 		for _, name := range sortedKeys(ws) {
+			if _, vol := g.W.volatile[name]; vol {
+				continue
+			}
 			if g.clean[name] && name != "alloc" && !strings.HasPrefix(name, "G!iter!") {
 				cur := st.heap.cur[name]
 				g.assumeUnder(st.reach, fmt.Sprintf("(forall ((x!fr Int)) (! (=> (select %s x!fr) (= (select %s x!fr) (select %s x!fr))) :pattern ((select %s x!fr))))", g.arr(f.entry, "alloc", "Bool"), cur, g.arr(f.entry, name, ws[name]), cur))
